@@ -259,9 +259,12 @@ func runV1(c *v1.Client, o *Op) (out Outcome) {
 		pages := []PageOut{}
 		start := o.StartKey
 		for n := 0; n < o.MaxPages; n++ {
-			lek, items, err := searchV1(c, o, start)
-			if err != nil {
-				return errOutcomeV1(err)
+			lek, items, eo := safeSearchV1(c, o, start)
+			if eo != nil {
+				if len(pages) == 0 {
+					return eo
+				}
+				return Outcome{"pagesErr": map[string]interface{}{"pages": pages, "error": eo}}
 			}
 			pages = append(pages, PageOut{Items: items, LEK: lek})
 			if len(lek) == 0 {
@@ -335,4 +338,18 @@ func runV1(c *v1.Client, o *Op) (out Outcome) {
 		return okOut()
 	}
 	return Outcome{"crash": "unknown op " + o.Op}
+}
+
+// safeSearchV1 turns an error or a panic of one page read into an outcome
+func safeSearchV1(c *v1.Client, o *Op, start Item) (lek Item, items []Item, eo Outcome) {
+	defer func() {
+		if r := recover(); r != nil {
+			eo = crashOutcome(r)
+		}
+	}()
+	lek, items, err := searchV1(c, o, start)
+	if err != nil {
+		return nil, nil, errOutcomeV1(err)
+	}
+	return lek, items, nil
 }
